@@ -157,5 +157,18 @@ claim("C04", "Lean 4 theorems (Mathlib change of variables) about definitions re
       "holds up to C10's tolerance; d-dimensional Coupling/MAF/Planar/BNAF normalisation is reduced to hypotheses (lawful bijection + Jacobian of the inverse + reported log-det, `Mass.InvJacN`) until their "
       "Jacobian theorems exist. The correspondence is C03's (same generated definitions).", "DESIGN.md §5 C04")
 
+claim("C06", "Lean 4 theorems about a hand-written executable model of the batching layer + differential correspondence with the real methods",
+      "In the model of _vectorize/_check_shapes/_get_sample_keys/_get_ufunc_signature and of jnp.vectorize's signature parsing, broadcasting and element "
+      "pairing, for all event/condition shapes, sample_shapes and leading batch shapes of any rank and size: the signature text parses back to exactly the "
+      "declared core shapes; condition.shape[:-cond_ndim or None] ++ cond_shape = condition.shape (incl. cond_ndim = 0); output shapes are sample_shape + "
+      "condition batch + event (log-probs without event; log_prob: NumPy broadcast of the two batch shapes); every output element is the unbatched call on the "
+      "slices NumPy broadcasting pairs at that index (x[i] with condition[i]); one key per output element, all distinct when split is injective; the result is a "
+      "function of (key, shapes, in-bounds data); a call is accepted iff trailing dims match the declared shapes and the batch shapes broadcast. The model's "
+      "signature strings, parser, output shapes/exception classes, element pairing, key shapes, key/draw distinctness and determinism are compared with the real "
+      "code on every run (every event/condition shape of rank 0-2 in the thorough tier).",
+      "Trusted: Lean 4.33 kernel, axioms propext/Classical.choice/Quot.sound (audited per run); Model/Vectorize.lean is hand-written and tied by correspondence only; "
+      "jr.split is abstract (assumed injective in the index; distinctness is measured). Keys are legacy uint32[2] keys. Zero-sized sample_shape/condition batch makes "
+      "sample raise TypeError (reproduced by the model; the shape theorems assume prod(key_shape) != 0).", "DESIGN.md §5 C06")
+
 for _p in ["C02","C06","C14","C17"]:
     NOT_YET[_p] = "not yet built in this round: theorems and correspondence under construction (see DESIGN.md §8); never claimed on the strength of the harness alone"
